@@ -144,7 +144,9 @@ def run(cfg):
     ob('R1', g.name + ':startDateTime', g.loc, okn, 'startDateTime is not passed through normalizeDateTuple before it is used for look-ups')
     # ---- R2
     f = lib.fn(XP + '::getOffsetDateTime')
-    s = SymExec(fold_global=lib.global_value).run(f.name, f.body, {})
+    sx_ = SymExec(fold_global=lib.global_value)
+    sx_.trace_locals = {st_.a[0] for st_ in walk_stmts(f.body) if st_.k == 'decl' and st_.a[1] and '*' in st_.a[1]}
+    s = sx_.run(f.name, f.body, {})
     okp, why = True, ''
     n = 0
     for gd, kind, res, eff in s.paths:
@@ -162,6 +164,22 @@ def run(cfg):
             break
         e_key = a[2][0]
         finds = [x for x in _fn_atoms(_P(a[2][1])) if x[1].endswith('::findTransition')]
+        # the offset is read from fields of a local transition pointer: follow that local to the look-up that bound it on
+        # this path (the summariser records the bindings of pointer locals)
+        bound = {}
+        for t_, v_ in eff:
+            if t_.startswith('local:'):
+                bound[t_[6:]] = v_
+        for at_ in _all_syms(_P(a[2][1])):
+            base = at_.split('.')[0]
+            if '.' in at_ and base in bound:
+                finds.extend(x for x in _fn_atoms(_P(bound[base])) if x[1].endswith('::findTransition'))
+        oa = _atom(_P(a[2][1]))
+        if not finds and oa is not None and oa[0] == 'fn' and oa[1].endswith('::forError'):
+            # no transition for that instant: the error offset, on a path whose condition is the failed look-up of the same instant
+            from .gnf import formula_atoms
+            for at in formula_atoms(gd):
+                finds.extend(x for x in _fn_atoms(_P(at[1])) if x[1].endswith('::findTransition') and x[2][-1] == e_key)
         if not finds or any(x[2][-1] != e_key for x in finds):
             okp, why = False, 'the offset handed to forEpochSeconds is not the offset of findTransition() for the same epoch seconds'
             break
@@ -277,6 +295,32 @@ def lookup_shape(f, key, lang='c', fold_global=None):
     if not (seen_gt and seen_le):
         return False, 'the loop does not keep the last element whose %s <= query' % key
     return True, ''
+
+
+def _all_syms(p, out=None, depth=0):
+    """names of all symbol leaves reachable in p"""
+    out = set() if out is None else out
+    if depth > 12:
+        return out
+    for a in p.atoms():
+        k = a[0]
+        if k == 'sym':
+            out.add(a[1])
+            continue
+        if k in ('fn', 'init', 'fstr'):
+            keys = [x[2] if (isinstance(x, tuple) and x and x[0] == 'kw') else x for x in a[-1]]
+        elif k in ('cmp', 'un'):
+            keys = list(a[2:])
+        elif k == 'proj':
+            keys = [a[2]]
+        else:
+            keys = [x for x in a[1:] if isinstance(x, tuple)]
+        for x in keys:
+            try:
+                _all_syms(_P(x), out, depth + 1)
+            except (TypeError, ValueError):
+                pass
+    return out
 
 
 def _fn_atoms(p, out=None, depth=0):
